@@ -95,7 +95,11 @@ class FortranRegularExpressions:
         r"CONTIGUOUS|VALUE|VOLATILE|PROTECTED|ASYNCHRONOUS)",
         I,
     )
-    PARAMETER_VAL: Pattern = compile(r"\w*[\s\&]*=(([\s\&]*[\w\.\-\+\*\/\'\"])*)", I)
+    PARAMETER_VAL: Pattern = compile(
+        r"\w*[\s\&]*(?:\([^=]*\)[\s\&]*)?(?:\*[\s\&]*\w+[\s\&]*)?"
+        r"=(([\s\&]*[\w\.\-\+\*\/\'\"])*)",
+        I,
+    )
     TATTR_LIST: Pattern = compile(
         r"[ ]*,[ ]*(PUBLIC|PRIVATE|ABSTRACT|EXTENDS\(\w*\))", I
     )
